@@ -48,6 +48,19 @@ def row(c, r):
     if not is_int(y):
       return None
     return '(sig_beq (dense %s %s %s %s) %s)' % (csig(c['kernel']), copt(crow(c['bias']) if c['use_bias'] else None), cnat(y.shape[1]), csig(x.tolist()), csig(y.tolist()))
+  if layer == 'dense_general':
+    x = np.array(c['x'], dtype=np.int64)
+    k = np.array(c['kernel'], dtype=np.int64)
+    y = np.array(g['data'])
+    if not is_int(y) or x.size * k.size > 20000:
+      return None
+    zl = lambda a: clist([cZ(int(v)) for v in np.asarray(a).reshape(-1)])
+    feats = list(k.shape[len(c['axis']):])
+    # the axes as written (any order), normalised; the model sorts them
+    axes = clist([cnat(a % x.ndim) for a in c['axis']])
+    return '(list_beq Z.eqb (dense_general %s %s %s %s %s %s) %s && list_beq Nat.eqb (dense_general_oshape %s %s %s) %s)' % (
+        clist([cnat(d) for d in x.shape]), axes, clist([cnat(d) for d in feats]), zl(x), zl(k), copt(zl(c['bias']) if c['use_bias'] else None), zl(y.astype(np.int64)),
+        clist([cnat(d) for d in x.shape]), axes, clist([cnat(d) for d in feats]), clist([cnat(d) for d in g['shape']]))
   if layer == 'conv' and len(c['kernel_size']) == 1 and c['input_dilation'] == [1]:
     x = np.array(c['x'], dtype=np.int64)
     cin = x.shape[-1]
